@@ -9,6 +9,12 @@ func VFRun(env *vfc.Env) {
 	switch env.Mode {
 	case "db.c01":
 		vfHistories(env, "c01", nil)
+	case "db.c02sched":
+		vfC02Sched(env)
+	case "db.bench":
+		vfBench(env)
+	case "db.c02":
+		vfHistories(env, "c02", nil)
 	default:
 		env.Res.Inconc("unknown mode " + env.Mode)
 	}
